@@ -58,6 +58,10 @@ type Disk struct {
 	Ops       []DiskOp
 	// FailKey, if set, makes ops on matching keys fail (deterministic faults).
 	Reads, Writes int
+	// PostGate adds a second scheduling point to every operation: after it
+	// took effect on the disk, before its result reaches the caller (I/O
+	// completion and continuation are different moments on a real machine).
+	PostGate bool
 	// FailNext makes the next N faultable operations fail with err-na when
 	// no scheduler is in control (single-threaded storage harnesses).
 	FailNext int
@@ -128,6 +132,16 @@ func (d *Disk) gate(ctx context.Context, op, key string, faultable bool) (Fault,
 	return f, task
 }
 
+// post is the optional scheduling point between an operation taking effect
+// and its caller continuing.
+func (d *Disk) post(op, key string) {
+	if d.PostGate {
+		if s := d.sim; s != nil && s.Controlled() {
+			s.Gate("disk", "ret "+op+" "+key, false)
+		}
+	}
+}
+
 func (d *Disk) appendMut(ctx context.Context, ws []KVWrite) {
 	task := ""
 	if d.sim != nil && d.sim.cur != nil {
@@ -163,6 +177,7 @@ func (d *Disk) Put(ctx context.Context, e *physical.Entry) error {
 	v := append([]byte{}, e.Value...)
 	d.appendMut(ctx, []KVWrite{{Key: e.Key, Val: v}})
 	d.mu.Unlock()
+	d.post("put", e.Key)
 	if f == FaultErrApplied {
 		return ErrInjected
 	}
@@ -178,13 +193,15 @@ func (d *Disk) Get(ctx context.Context, key string) (*physical.Entry, error) {
 		return nil, err
 	}
 	d.mu.Lock()
-	defer d.mu.Unlock()
 	d.Reads++
 	v, ok := d.kv.Get(key)
-	if !ok {
-		return nil, nil
+	var out *physical.Entry
+	if ok {
+		out = &physical.Entry{Key: key, Value: append([]byte{}, v...)}
 	}
-	return &physical.Entry{Key: key, Value: append([]byte{}, v...)}, nil
+	d.mu.Unlock()
+	d.post("get", key)
+	return out, nil
 }
 
 func (d *Disk) Delete(ctx context.Context, key string) error {
@@ -198,6 +215,7 @@ func (d *Disk) Delete(ctx context.Context, key string) error {
 	d.mu.Lock()
 	d.appendMut(ctx, []KVWrite{{Key: key}})
 	d.mu.Unlock()
+	d.post("del", key)
 	if f == FaultErrApplied {
 		return ErrInjected
 	}
